@@ -92,13 +92,40 @@ def run(ctx):
     w = Wiring(py)
     fn = py.function('deserialize', 'deserialize_instructions')
     where0 = py.where('deserialize', fn)
-    loop, chain = find_dispatch(fn)
-    brs, els = branches(chain)
+    from ..core import astpaths
+    loops = [n for n in fn.body if isinstance(n, ast.While)]
+    ctx.require(len(loops) == 1, 'deserialize_instructions: expected exactly one decoding loop')
+    loop = loops[0]
+    conv0 = [n for n in loop.body if isinstance(n, ast.Assign) and isinstance(n.value, ast.Call) and ast.unparse(n.value.func) == 'Instruction'
+             and isinstance(n.targets[0], ast.Name)]
+    ctx.require(len(conv0) == 1, 'deserialize_instructions: the byte is not converted with Instruction(..) in the loop')
+    SUBJ = conv0[0].targets[0].id
+    # the code that runs for one opcode: the loop body with the dispatch on the instruction decided (if/elif chains, guard clauses and
+    # match statements alike); an opcode is handled if that differs from what runs for an opcode no test mentions
+    default_body = astpaths.specialise(loop.body, SUBJ, None, 'Instruction')
+    default_txt = [ast.unparse(x) for x in default_body]
+    members = [m for m in (py.cls('Instruction').fields and [f for f, _t in py.cls('Instruction').fields] or [])]
+    if not members:
+        members = [t.id for n in py.cls('Instruction').node.body if isinstance(n, ast.Assign) for t in n.targets if isinstance(t, ast.Name)]
+    ctx.require(len(members) >= 10, 'anchor vanished: members of the Instruction enumeration')
     handled = {}
-    for op, body, node in brs:
-        if op in handled:
-            ctx.ob('reader-table', f'duplicate/{op}', False, f'{op} has two branches; the second is dead', py.where('deserialize', node))
-        handled.setdefault(op, (body, node))
+    for op in members:
+        body = astpaths.specialise(loop.body, SUBJ, op, 'Instruction')
+        if [ast.unparse(x) for x in body] != default_txt:
+            rest = [x for x in body if x is not conv0[0]]
+            handled[op] = (rest, rest[0] if rest else loop)
+    # a second branch for an opcode already handled earlier in a plain if / elif chain is dead code
+    try:
+        _loop, chain = find_dispatch(fn)
+        brs, _els = branches(chain)
+        seen_ops = set()
+        for op, _body, node in brs:
+            if op in seen_ops:
+                ctx.ob('reader-table', f'duplicate/{op}', False, f'{op} has two branches; the second is dead', py.where('deserialize', node))
+            seen_ops.add(op)
+    except AnalysisError:
+        pass
+    chain = loop
     # --- loop ends only on None
     t = loop.test
     ok_loop = isinstance(t, ast.Compare) and len(t.ops) == 1 and isinstance(t.ops[0], ast.IsNot) \
@@ -112,7 +139,9 @@ def run(ctx):
     guarded = any(isinstance(n, ast.Try) for n in loop.body)
     ctx.ob('decode-loop', 'unknown-byte-raises', bool(conv) and not guarded,
            'Instruction(byte) must not be guarded by a default: unknown bytes have to raise', py.where('deserialize', loop))
-    else_raises = bool(els) and all(isinstance(n, ast.Raise) for n in els[-1:])
+    # ... decided on what runs for an opcode that no test mentions: every path raises
+    dpaths = astpaths.paths([x for x in default_body if x is not conv0[0]])
+    else_raises = bool(dpaths) and all(sp.end == 'raise' for sp in dpaths)
     ctx.ob('decode-loop', 'unhandled-opcode-raises', else_raises,
            'the dispatch chain must end in a raising else branch', py.where('deserialize', chain))
     # --- truncated input is an error: the operand reader raises at end of input, and lists read exactly `length` operands through it
